@@ -9,7 +9,7 @@ LEVEL = 'exploration'
 RULE = ('session connect (with a signature), shell, stat, push of 3 WRTEs at maxdata 4096, pull; every bulk_write accepts all (default) / 1 / len-1 / half of the bytes and reports the count; '
         'all placements of <=k such deviations over the whole write sequence (stateless DFS), plus global per-call capacities {1, 7, 23, 24, 25, 4095}; both twins; oracle: whenever a call '
         'returns normally the device model has received byte-for-byte the stream of the unlimited run up to that point (a short write must be completed or reported), results equal the '
-        'unlimited run; non-trivial = at least one short write; distinct = distinct (twin, capacity / choice list)')
+        'unlimited run; plus whole sessions over real loopback TCP with 4 KiB socket buffers and a slow reader (must equal the in-memory session); non-trivial = at least one short write; distinct = distinct (twin, capacity / choice list)')
 ASSUMPTIONS = ['adbsim device model', 'the in-memory transport reports the accepted count exactly as socket.send / libusb bulkWrite do']
 CON = {'_sim': {'auth': {'first': 'token', 'sig': ['cnxn'], 'pub': 'cnxn'}}, '_keys': [0]}
 
@@ -90,6 +90,10 @@ def parts(tier):
     k = 2 if tier == 'quick' else 3
     out = [Part('short-write-dfs', [{'twin': t} for t in twins], run_short, {'wcap': k}, split=1 if tier == 'quick' else 2,
                 what='all placements of <=%d short-write deviations over every bulk_write of the session' % k, bound='wcap deviations <= %d' % k)]
+    from . import c18
+    sc = [{'transport': t, 'buffers': 'small', 'push': pz} for t in twins for pz in ('small', 'big')]
+    out.append(Part('loopback-small-buffers', sc, c18.run_tcp_session, what='real loopback TCP, SO_SNDBUF/SO_RCVBUF 4 KiB, slow reader, 100 KiB and 1 MiB push with a 1 s transport timeout',
+                    bound='%d sessions (conformance runs: kernel scheduling is not enumerated)' % len(sc), exhaustive=False, chunk=1, min_outcomes=1))
     out.append(Part('global-capacity', [{'twin': t, 'cap': c} for t in twins for c in (1, 7, 23, 24, 25, 4095)], run_short,
                     what='every bulk_write accepts at most c bytes', bound='6 capacities x 2 twins'))
     return out
